@@ -133,7 +133,7 @@ class _Expand(ast.NodeTransformer):
 
 
 class SymPaths:
-    def __init__(self, project, func, node=None, pure=(), max_paths=400):
+    def __init__(self, project, func, node=None, pure=(), max_paths=400, unroll=False):
         self.p, self.f = project, func
         self.node = node if node is not None else func.node
         self.extra_pure = set(pure)
@@ -141,7 +141,13 @@ class SymPaths:
         self.ncall = 0
         self.nhavoc = 0
         self.nfreeze = 0
+        self.nloop = 0
+        self.unroll = unroll
         self.snaps = {}
+        self.rebound = set()
+        for n in ast.walk(self.node):
+            if isinstance(n, ast.Nonlocal):
+                self.rebound.update(n.names)
 
     # ------------------------------------------------------------ purity
     def is_pure_call(self, call):
@@ -224,6 +230,14 @@ class SymPaths:
                 T += a
                 Fa += b
             return T, Fa
+        if isinstance(test, ast.Compare) and len(test.ops) == 1 and isinstance(test.left, ast.Constant) and isinstance(test.comparators[0], ast.Constant):
+            a_, b_ = test.left.value, test.comparators[0].value
+            try:
+                v = {ast.Eq: lambda: a_ == b_, ast.NotEq: lambda: a_ != b_, ast.Lt: lambda: a_ < b_, ast.LtE: lambda: a_ <= b_, ast.Gt: lambda: a_ > b_,
+                     ast.GtE: lambda: a_ >= b_, ast.Is: lambda: a_ is b_, ast.IsNot: lambda: a_ is not b_}[type(test.ops[0])]()
+                return ([path], []) if v else ([], [path])
+            except (KeyError, TypeError):
+                pass
         src = src_of(test)
         known = path.cond(src)
         if known is True:
@@ -364,6 +378,63 @@ class SymPaths:
             t.slice = self.expand(t.slice, path)
         return t
 
+    def unroll_for(self, st, path, done):
+        """first and second iteration of a for loop, symbolically: the loop variable is a fresh element symbol `_e<k>_<name>`
+        (an enumerate() index is the constant 0 / 1), events of iteration k sit between the markers ('_iter<k>', loop) and
+        the next marker.  After the second iteration the loop-carried variables are compared with their values after the
+        first: if they are equal every later iteration starts in the same state as the second one (marker '_stable'),
+        otherwise '_unstable'.  Then everything the loop assigns is havocked."""
+        self.nloop += 1
+        tag = self.nloop
+        it = self.expand(st.iter, path)
+        enum = isinstance(it, ast.Call) and isinstance(it.func, ast.Name) and it.func.id == 'enumerate' and isinstance(st.target, ast.Tuple) and len(st.target.elts) == 2
+        carried = set()
+        for n in ast.walk(ast.Module(body=st.body, type_ignores=[])):
+            if isinstance(n, ast.Name) and isinstance(n.ctx, ast.Store):
+                carried.add(n.id)
+        cur = [path]
+        snaps = {}
+        for k in (0, 1):
+            nxt = []
+            for q in cur:
+                q.events = q.events + (('_iter%d' % k, st, q.conds),)
+                if enum:
+                    self.assign(st.target.elts[0], ast.Constant(value=k), q)
+                    self.assign(st.target.elts[1], ast.Name(id='_e%d_%d' % (k, tag), ctx=ast.Load()), q)
+                else:
+                    self.assign(st.target, ast.Name(id='_e%d_%d' % (k, tag), ctx=ast.Load()), q)
+                body_done = []
+                outs = self.block(st.body, [q], body_done)
+                for b in body_done:
+                    if b.exit == 'continue':
+                        b.exit = 'end'
+                        outs.append(b)
+                    elif b.exit == 'break':
+                        b.exit = 'end'
+                        b.events = b.events + (('_broke', st, b.conds),)
+                        outs.append(b)
+                    else:
+                        done.append(b)
+                for o in outs:
+                    key = tuple(sorted((n, src_of(o.env[n])) for n in carried if n in o.env and not isinstance(st.target, ast.Name) or (n in o.env and n not in [t.id for t in ast.walk(st.target) if isinstance(t, ast.Name)])))
+                    if k == 0:
+                        o.events = o.events + (('@carry', ast.Constant(value=repr(key)), o.conds),)
+                    else:
+                        prev = [e for e in o.events if e[0] == '@carry']
+                        stable = bool(prev) and prev[-1][1].value == repr(key)
+                        o.events = o.events + (('_stable' if stable else '_unstable', st, o.conds),)
+                nxt += outs
+            cur = [o for o in nxt if not any(e[0] == '_broke' for e in o.events)] if k == 0 else nxt
+            broke = [o for o in nxt if any(e[0] == '_broke' for e in o.events)] if k == 0 else []
+            if len(cur) + len(broke) > self.max_paths:
+                raise Unsupported('loop unrolling splits into too many paths')
+            if k == 0:
+                first_broke = broke
+        out = cur + first_broke
+        for q in out:
+            self.havoc(st, q)
+        return out
+
     def havoc(self, stmt, path):
         self.nhavoc += 1
         for n in ast.walk(stmt):
@@ -394,6 +465,8 @@ class SymPaths:
         if roots is None:
             return
         self.nfreeze += 1
+        for name in self.rebound:
+            path.env[name] = ast.Name(id='_h%d_%s' % (self.nfreeze, name), ctx=ast.Load())      # a nested function may re-bind it (nonlocal)
         for name, val in list(path.env.items()):
             if any(isinstance(n, (ast.Attribute, ast.Subscript)) for n in ast.walk(val)):
                 sym = '_s%d_%s' % (self.nfreeze, name)
@@ -507,6 +580,11 @@ class SymPaths:
             path.exit = 'raise'
             done.append(path)
             return []
+        if isinstance(st, ast.For) and self.unroll and not st.orelse:
+            try:
+                return self.unroll_for(st, path, done)
+            except Unsupported:
+                pass
         if isinstance(st, (ast.For, ast.While)):
             if isinstance(st, ast.For):
                 self.expand(st.iter, path)
@@ -524,13 +602,13 @@ class SymPaths:
         raise Unsupported('statement %s in %s' % (type(st).__name__, self.f.short))
 
 
-def summaries(project, func, inline=True, pure=(), select=None):
+def summaries(project, func, inline=True, pure=(), select=None, unroll=False):
     """-> list of finished paths of the normal form of `func` (ret set for returning paths, raised for raising ones)"""
     from . import norm
     node = norm.inline_helpers(project, func, select=select) if inline else copy.deepcopy(func.node)
     node = norm._Tests().visit(node)
     ast.fix_missing_locations(node)
-    sp = SymPaths(project, func, node, pure=pure)
+    sp = SymPaths(project, func, node, pure=pure, unroll=unroll)
     paths = sp.run()
     for q in paths:
         q.snaps = sp.snaps
